@@ -1,0 +1,17 @@
+//go:build !verif
+
+// Package verifhook provides instrumentation points used by the external
+// verification harness.  Without the "verif" build tag it is a no-op.
+package verifhook
+
+// Enabled reports whether hooks are compiled in.
+const Enabled = false
+
+// Handler receives an event emitted at a hook site.
+type Handler func(event string, args ...interface{})
+
+// Set is a no-op without the verif build tag.
+func Set(Handler) {}
+
+// Emit is a no-op without the verif build tag.
+func Emit(string, ...interface{}) {}
